@@ -128,7 +128,11 @@ theorem safe_mapPairError (hwf : StreamWF s) : Safe s (mapPairError s) := by
   · exact safe_bind safe_setCont fun _ => safe_pure _
   · exact safe_bind (safe_peekError hwf _ (by decide)) fun _ => safe_pure _
 
-theorem safe_parseFunctionParametersLoop (fuel : Nat) : ∀ acc, Safe s (parseFunctionParametersLoop s fuel acc) := by
+theorem safe_parameter (hwf : StreamWF s) : Safe s (parameter s) := by
+  unfold parameter
+  exact safe_bind safe_getSt fun st => safe_pure _
+
+theorem safe_parseFunctionParametersLoop (hwf : StreamWF s) (fuel : Nat) : ∀ acc, Safe s (parseFunctionParametersLoop s fuel acc) := by
   induction fuel with
   | zero => intro acc; unfold parseFunctionParametersLoop; exact safe_outOfFuel
   | succ n ih =>
@@ -136,7 +140,7 @@ theorem safe_parseFunctionParametersLoop (fuel : Nat) : ∀ acc, Safe s (parseFu
     unfold parseFunctionParametersLoop
     refine safe_bind safe_getSt fun st => ?_
     split
-    · exact safe_bind safe_nextToken fun _ => safe_bind safe_nextToken fun _ => safe_bind safe_getSt fun _ => ih _
+    · exact safe_bind safe_nextToken fun _ => safe_bind safe_nextToken fun _ => safe_bind (safe_parameter hwf) fun _ => ih _
     · exact safe_pure _
 
 theorem safe_parseFunctionParameters (hwf : StreamWF s) (fuel : Nat) : Safe s (parseFunctionParameters s fuel) := by
@@ -144,8 +148,8 @@ theorem safe_parseFunctionParameters (hwf : StreamWF s) (fuel : Nat) : Safe s (p
   refine safe_bind safe_getSt fun st => ?_
   split
   · exact safe_bind safe_nextToken fun _ => safe_pure _
-  · refine safe_bind safe_nextToken fun _ => safe_bind safe_getSt fun _ =>
-      safe_bind (safe_parseFunctionParametersLoop fuel _) fun ids => ?_
+  · refine safe_bind safe_nextToken fun _ => safe_bind (safe_parameter hwf) fun _ =>
+      safe_bind (safe_parseFunctionParametersLoop hwf fuel _) fun ids => ?_
     refine safe_bind (safe_expectPeek hwf .RPAREN (by decide)) fun b => ?_
     cases b with
     | false => exact safe_pure _
